@@ -64,6 +64,8 @@ impl PostConversionLinter for BuiltInLinter {
             Expression::FunctionCall(_, args) | Expression::ArrayElement(_, args, _) => {
                 self.visit_expressions(args)
             }
+            // a field of a record, possibly of an array element: `a(i).field`
+            Expression::Property(left_side, _, _) => self.visit_property_base(left_side),
             _ => Ok(()),
         }
     }
